@@ -11,15 +11,13 @@
 //!   always => skipping `enabled` (what the macro does) delivers to exactly the same layers;
 //!   level > hint => no layer receives it.
 
-mod universe;
-
 use proptest::prelude::*;
 use serde::{Deserialize, Serialize};
 use tracing_core::field::Value;
 use tracing_core::{span, Dispatch, Event};
 use tracing_subscriber::registry::Registry;
 use tracing_subscriber::subscribe::{CollectExt, Subscribe};
-use universe::{METAS, N};
+use vp_sub::universe::{METAS, N};
 use vp_engine::runner::Rec;
 use vp_engine::{kf, Isolation, Outcome, Property, Tier};
 use vp_sub::*;
